@@ -17,6 +17,8 @@ def _native_ops(case, env, rng):
                 idx = tuple(int(x) for x in m.group(1).split(",")) if m.group(1) else ()
                 if len(idx) == len(shape):
                     a[idx] = float(v)
+        if i in case.get("zero_imag", ()):
+            a[1, ...] = 0.0
         ops.append(torch.tensor(a, dtype=torch.double))
     return ops
 
@@ -35,7 +37,12 @@ def check_case(case, env, seed):
                 return "no exception for unsupported shape / aliasing buffer"
             except case["exc"]:
                 return None
+        keep = [o.clone() for o in ops]
         res = case["fn"](*ops)
+        if "out is" not in case["name"] and any(not torch.equal(o, k) for o, k in zip(ops, keep)):
+            return "an operand was modified by the call"
+        if isinstance(res, torch.Tensor) and case["name"] not in ("real", "imag") and any(res.data_ptr() == o.data_ptr() for o in ops if o.numel()) and "out" not in case["name"]:
+            return "the result aliases an operand"
         spec = case["spec"]
         if isinstance(spec, tuple):
             kind, f = spec
